@@ -19,8 +19,9 @@ GenNext ==
           \/ "lookup" \in Kinds(r) /\ \E i \in 0..2 : LookupCall(r, i) /\ Rec("Lookup", [i |-> i])
           \/ "current" \in Kinds(r) /\ CurrentCall(r) /\ Rec("Current", [x |-> 0])
           \/ "push" \in Kinds(r) /\ \E v \in Vaas : PushCall(r, v) /\ Rec("Push", [v |-> v])
-    \/ /\ cnt[Updater] < MaxAppends /\ top > cur /\ Bump(Updater) /\ AppendCall(Updater, cur + 1, top)
-       /\ Rec("Append", [lo |-> cur + 1, hi |-> top])
+    \/ \E u \in Updaters : \E lo \in {1, cur + 1} :
+          /\ cnt[u] < MaxAppends /\ top > cur /\ Bump(u) /\ AppendCall(u, lo, top)
+          /\ Rec("Append", [lo |-> lo, hi |-> top])
     \/ ChainGrow /\ UNCHANGED cnt /\ Rec("Grow", [x |-> 0])
     \/ \E p \in DOMAIN proc : (Internal(p) \/ LookupRet(p) \/ PushRet(p)) /\ UNCHANGED cnt /\ Quiet
     \/ Drain /\ UNCHANGED cnt /\ Rec("Drain", [x |-> 0])
